@@ -36,7 +36,7 @@ CHECKS = {
                 note=P_NOTE + ' The step on which a cash flow is booked is not compared (not part of the statement).'),
     'C07': dict(engine='tlc-eaoassembly', technique='TLC on the TLA+ model of the index algorithm (EAOAssembly; three labelling rules, adversarial names, unmapped variables) + TLC evaluation of every C07 clause on assembly traces recorded from the real code (Trace_EAOAssembly)', cat='model_checking', ref='DESIGN.md 4 (C07), 2.3',
                 text='Design level: TLC proves LabelInRange/LabelInjective/LabelIsPosition for the rule the code uses and must find the counterexamples of the pre-repair key rule (anti-vacuity). Code level: per-asset problems and the assembled problem of every zoo portfolio (all asset types incl. scale variables, booleans, periodic merge with duration, coarse grids), adversarial name sets, order books with out-of-horizon orders and reference families are logged as tables; TLC checks sizes, label range, ownership (rows, cost, bounds per variable), injectivity, embedding of asset rows, inert unmapped variables, l<=u/NaN, steps on grid, exactly one nodal row per (node, step) with dispatch.',
-                note='Per-asset problems are obtained through the public per-asset set-up with the same prices/grid; fixed point 1e-3; trusted: TLC.'),
+                note='Per-asset problems are obtained through the public per-asset set-up with the same prices/grid; every zoo portfolio is also traced on its SECOND set-up (grid of equal length starting later); fixed point 1e-3; trusted: TLC.'),
     'C19': dict(engine='tlc-eaotime', technique='TLC enumeration of the EAOTime specification (all grid / window / coarse / interval-list calls, C19 clauses as invariants) + exact comparison of every specified result with the real Timegrid call', cat='model_checking', ref='DESIGN.md 4 (C19), 2.1',
                 text='EAOTime (absolute hour ticks, one-switch zones, fixed vs calendar frequencies, Restrict, Coarse, Assign) is enumerated over all (zone, frequency, start, end, main time unit) cases around the real CET switches of 2021, all restriction windows, coarse frequencies and interval lists; TLC checks Increasing, StartsAtStart, BeforeEnd, StepLenTrue, CumLenTrue, RestrictDef, CoarsePartition, AssignDef in every state and emits the expected result of each call; the real Timegrid / set_restricted_grid / values_to_grid / prices_to_grid is called with the same arguments and compared exactly (rationals).',
                 note='timestamped price points cast onto the grid (PricesToGrid: interpolation in absolute time, invariant PricesDef); pandas calendar arithmetic trusted for ticks -> timestamps; non-existing / ambiguous local hours are not used as inputs; one zone (CET).'),
